@@ -194,6 +194,26 @@ Proof.
   - intros i para. apply align_para_plain. exact Ha.
 Qed.
 
+(* Indent in paragraph mode *)
+Definition indent_piece (ind : list Z) (opts : options) (para : gstr) : gstr :=
+  decode (join (o_linesep (with_defaults opts)) (mapped_lines (fun l => ind ++ l) opts (with_options (edit (encode para)) opts))).
+
+Theorem indent_opts_paragraphs level opts e ind :
+  let o := with_defaults opts in
+  1 <= level -> o_preserve o = true -> repeat_str (o_indent o) level = Ok ind ->
+  no_affix (o_parasep o) (o_linesep o) ->
+  let ps := pieces (e_text e) (o_parasep o) (o_linesep o) in
+  indent_opts level opts e =
+    Ok (with_text e (join (o_parasep o) (map (fun b => encode (indent_piece ind opts (decode b))) ps))).
+Proof.
+  cbv zeta. intros Hl Hp Hi Hna. unfold indent_opts. replace (level <? 1) with false by lia. rewrite Hi. cbn [bind]. rewrite Hp.
+  unfold apply_paragraphs_opts.
+  rewrite (apply_gparagraphs_map _ (fun _ para => indent_piece ind opts para) opts e Hna).
+  - do 3 f_equal. apply (map_snd_combine (fun b => encode (indent_piece ind opts (decode b)))). rewrite map_length, seq_length. reflexivity.
+  - intros i para. rewrite (apply_opts_map (fun l => ind ++ l)). cbn [bind]. unfold ed_string, is_sub_editor, with_text, with_options, edit.
+    cbn [e_ref e_text bind map]. reflexivity.
+Qed.
+
 Example no_affix_default : no_affix [10; 10] [10] /\ no_affix [13; 10; 13; 10] [13; 10] /\ no_affix [10; 10; 10] [10].
 Proof. repeat split; vm_compute; reflexivity. Qed.
 
